@@ -435,6 +435,18 @@ func checkRequestTimeouts(p *Prog, r *Report) {
 					if exc, isE := d.Call.Value.(*ssa.Extract); isE && exc.Tuple == ssa.Value(wt) && exc.Index == 1 {
 						cancelDeferred = true
 					}
+					// `defer func() { cancel() }()`: an unconditional call in the entry block of a deferred literal
+					if cl := StaticCallee(&d.Call); cl != nil && cl.Parent() == fn && len(cl.Blocks) > 0 {
+						for _, in := range cl.Blocks[0].Instrs {
+							if c, isC := in.(*ssa.Call); isC {
+								for _, o := range p.Origins(c.Call.Value) {
+									if exc, isE := o.(*ssa.Extract); isE && exc.Tuple == ssa.Value(wt) && exc.Index == 1 {
+										cancelDeferred = true
+									}
+								}
+							}
+						}
+					}
 				}
 				if !cancelDeferred {
 					ok2, why = false, "cancel is not deferred (the body would be cut off, or the timer leaks)"
